@@ -58,6 +58,24 @@ func init() {
 			{Name: "reader no longer de-obfuscates", ExpectRule: "C36.R2", ExpectKey: "obfuscation", Edits: []Edit{
 				{File: "internal/embed/embed.go", Old: "\treturn XOR(xorConfig), nil", New: "\treturn xorConfig, nil"},
 			}},
+			{Name: "streamed embed: destination truncated before the source is read (in-place embed loses the binary)", ExpectRule: "C36.R4", ExpectKey: "AppendConfig", Edits: []Edit{
+				{File: "internal/embed/embed.go", Old: "\tif _, err := out.Write(srcData); err != nil {", New: "\tsrcAgain, err := os.ReadFile(srcBinary)\n\tif err != nil {\n\t\treturn err\n\t}\n\tif _, err := out.Write(srcAgain); err != nil {"},
+			}},
+			{Name: "streamed embed through an open handle and io.Copy", ExpectRule: "C36.R4", ExpectKey: "AppendConfig", Edits: []Edit{
+				{File: "internal/embed/embed.go", Old: "\tif _, err := out.Write(srcData); err != nil {", New: "\tsrcFile, err := os.Open(srcBinary)\n\tif err != nil {\n\t\treturn err\n\t}\n\tdefer srcFile.Close()\n\tif _, err := io.Copy(out, srcFile); err != nil {"},
+			}},
+			{Name: "streamed strip: destination created before the source is read (in-place strip empties the file)", ExpectRule: "C36.R4", ExpectKey: "CopyBinaryWithoutConfig", Edits: []Edit{
+				{File: "internal/embed/embed.go", Old: "\tdata := make([]byte, origSize)\n\tif _, err := io.ReadFull(f, data); err != nil {", New: "\tdst, err := os.Create(dstPath)\n\tif err != nil {\n\t\treturn err\n\t}\n\tdst.Close()\n\tdata := make([]byte, origSize)\n\tif _, err := io.ReadFull(f, data); err != nil {"},
+			}},
+			{Name: "obfuscation is no longer an involution (addition instead of XOR)", ExpectRule: "C36.R2", ExpectKey: "involution", Edits: []Edit{
+				{File: "internal/embed/embed.go", Old: "result[i] = b ^ XORKey[i%keyLen]", New: "result[i] = b + XORKey[i%keyLen]"},
+			}},
+			{Name: "obfuscation mask depends on the data", ExpectRule: "C36.R2", ExpectKey: "involution", Edits: []Edit{
+				{File: "internal/embed/embed.go", Old: "result[i] = b ^ XORKey[i%keyLen]", New: "result[i] = b ^ XORKey[i%keyLen] ^ data[0]"},
+			}},
+			{Name: "rewrite: source read through a handle before the destination is opened; temp file + rename", Edits: []Edit{
+				{File: "internal/embed/embed.go", Old: "\tsrcData, err := os.ReadFile(srcBinary)\n", New: "\tsrcFile, err := os.Open(srcBinary)\n\tif err != nil {\n\t\treturn err\n\t}\n\tsrcData, err := io.ReadAll(srcFile)\n\tsrcFile.Close()\n"},
+			}},
 			{Name: "rewrite: reject via <=, signed check with non-negativity test, helper constant", Edits: []Edit{
 				{File: "internal/embed/embed.go", Old: "\tif configLen > uint64(fileSize-FooterSize) {\n\t\treturn nil, ErrConfigTooLarge\n\t}", New: "\tif maxLen := uint64(fileSize - FooterSize); !(configLen <= maxLen) {\n\t\treturn nil, ErrConfigTooLarge\n\t}"},
 				{File: "internal/embed/embed.go", Old: "\tif configLen > uint64(fileSize-FooterSize) {\n\t\treturn 0, ErrConfigTooLarge\n\t}\n\treturn fileSize - FooterSize - int64(configLen), nil", New: "\tn := int64(configLen)\n\tif n < 0 || fileSize-FooterSize < n {\n\t\treturn 0, ErrConfigTooLarge\n\t}\n\treturn fileSize - FooterSize - n, nil"},
@@ -338,6 +356,7 @@ func c36BufLen(root ssa.Value) (int64, bool) {
 func runC36(p *kit.Program, r *kit.Report) {
 	r.Rule("C36.R1", "every use of the decoded 64-bit footer length other than a comparison is dominated by a range check valid for all 2^64 values (unsigned comparison, or signed comparison plus non-negativity test) against a file-size-derived or small constant bound")
 	r.Rule("C36.R2", "writer and readers agree on the trailer layout: byte order, footer size, length and magic sub-slices, location of the config bytes, original-size formula, write order and the obfuscation function")
+	r.Rule("C36.R4", "a function that reads a file named by one path parameter and creates/truncates a file named by another path parameter finishes every read of the source before the destination is opened with truncation (the two may name the same file: in-place embed / strip)")
 	r.Rule("C36.R3", "no explicit panic/exit in the package; every allocation size is a constant, a len(), a file size, a validated footer length, or 'A - length' under a bound that keeps it non-negative")
 	const pkg = "internal/embed"
 	fns := p.FuncsInPkg(pkg)
@@ -535,6 +554,9 @@ func runC36(p *kit.Program, r *kit.Report) {
 
 	// ---- R2: layout agreement
 	c36Layout(p, r, readers, writerFn, encode, footerSize)
+
+	// ---- R4: in-place safety
+	c36InPlace(p, r, fns)
 }
 
 // c36SizeOK classifies the value used as an allocation size at instruction at.
@@ -677,6 +699,7 @@ func c36Layout(p *kit.Program, r *kit.Report, readers []*c36Reader, writerFn *ss
 		"the length recorded in the footer is not the len() of the data written: readers cut the config at the wrong place")
 	if c, _, ok := kit.ResultOf(cfgData); ok && cfgData != nil {
 		xorFn = kit.CalleeOf(c).Static
+		c36Involution(p, r, xorFn)
 	}
 	// write order: ... , config data, footer
 	type wr struct {
@@ -852,4 +875,200 @@ func c36Layout(p *kit.Program, r *kit.Report, readers []*c36Reader, writerFn *ss
 func c36IntLike(t types.Type) bool {
 	b, ok := t.Underlying().(*types.Basic)
 	return ok && b.Info()&types.IsInteger != 0
+}
+
+// ---------- R4
+
+// c36PathParam: the string parameter of fn that v (a path argument) is computed from, if any.
+func c36PathParam(p *kit.Program, v ssa.Value) *ssa.Parameter {
+	if prm, ok := v.(*ssa.Parameter); ok {
+		return prm
+	}
+	for _, src := range kit.Slice(v, kit.SliceOpts{Prog: p}) {
+		if src.Kind == kit.SrcParam {
+			if prm, ok := src.Value.(*ssa.Parameter); ok {
+				if b, isB := prm.Type().Underlying().(*types.Basic); isB && b.Kind() == types.String {
+					return prm
+				}
+			}
+		}
+	}
+	return nil
+}
+
+type c36FileOp struct {
+	in    ssa.Instruction
+	param *ssa.Parameter
+	what  string
+}
+
+func c36InPlace(p *kit.Program, r *kit.Report, fns []*ssa.Function) {
+	oTrunc := int64(0x200)
+	if pk := p.All["os"]; pk != nil && pk.Types != nil {
+		if c, ok := pk.Types.Scope().Lookup("O_TRUNC").(*types.Const); ok {
+			if s := c.Val().ExactString(); s != "" {
+				fmt.Sscanf(s, "%d", &oTrunc)
+			}
+		}
+	}
+	nFns := 0
+	for _, fn := range fns {
+		if fn.Parent() != nil {
+			continue
+		}
+		var truncs, reads []c36FileOp
+		// handles opened for reading from a path parameter
+		handles := map[ssa.Value]*ssa.Parameter{}
+		for _, c := range kit.Calls(fn) {
+			cal := kit.CalleeOf(c)
+			if cal.Pkg != "os" || cal.Recv != "" || kit.Arg(c, 0) == nil {
+				continue
+			}
+			prm := c36PathParam(p, kit.Arg(c, 0))
+			if prm == nil || prm.Parent() != fn {
+				continue
+			}
+			call, _ := c.(*ssa.Call)
+			switch cal.Name {
+			case "Create", "WriteFile", "Truncate":
+				truncs = append(truncs, c36FileOp{c, prm, "os." + cal.Name})
+			case "OpenFile":
+				flag, isConst := kit.ConstInt(kit.Arg(c, 1))
+				if isConst && flag&oTrunc != 0 {
+					truncs = append(truncs, c36FileOp{c, prm, "os.OpenFile(O_TRUNC)"})
+				} else if call != nil {
+					if h := kit.ExtractOf(call, 0); h != nil {
+						handles[h] = prm
+					}
+				}
+			case "Open":
+				if call != nil {
+					if h := kit.ExtractOf(call, 0); h != nil {
+						handles[h] = prm
+					}
+				}
+			case "ReadFile":
+				reads = append(reads, c36FileOp{c, prm, "os.ReadFile"})
+			}
+		}
+		// every use of a read handle (directly or boxed in an interface) other than Close
+		for h, prm := range handles {
+			vals := []ssa.Value{h}
+			if refs := h.Referrers(); refs != nil {
+				for _, ref := range *refs {
+					if mi, ok := ref.(*ssa.MakeInterface); ok {
+						vals = append(vals, mi)
+					}
+					if ct, ok := ref.(*ssa.ChangeInterface); ok {
+						vals = append(vals, ct)
+					}
+				}
+			}
+			for _, v := range vals {
+				if v.Referrers() == nil {
+					continue
+				}
+				for _, ref := range *v.Referrers() {
+					c, ok := ref.(ssa.CallInstruction)
+					if !ok {
+						continue
+					}
+					if _, isDefer := c.(*ssa.Defer); isDefer {
+						continue
+					}
+					cal := kit.CalleeOf(c)
+					switch cal.Name {
+					case "Close", "Name", "Fd", "Chmod", "Chown", "SetDeadline", "SetReadDeadline", "SetWriteDeadline":
+						continue
+					}
+					what := cal.String()
+					if kit.Receiver(c) == v {
+						what = "(*os.File)." + cal.Name
+					}
+					reads = append(reads, c36FileOp{c, prm, what + " on the file opened from " + prm.Name()})
+				}
+			}
+		}
+		if len(truncs) == 0 || len(reads) == 0 {
+			continue
+		}
+		nFns++
+		fname := kit.FuncName(fn)
+		n := 0
+		for _, t := range truncs {
+			for _, rd := range reads {
+				if rd.param == t.param {
+					continue // reading back the file just written is not a read of the source
+				}
+				if kit.CanReach(t.in, rd.in) {
+					n++
+					r.Violation("C36.R4", fmt.Sprintf("%s reads %s after truncating %s #%d", fname, rd.param.Name(), t.param.Name(), n), p.Pos(rd.in.Pos()),
+						"%s (%s) can execute after %s of %s at %s: when %s and %s name the same file (in-place operation; also ./-variants, hard links, symlinks) the file has already been emptied, so the binary part is lost and stripping no longer yields the original binary", rd.what, p.Pos(rd.in.Pos()), t.what, t.param.Name(), p.Pos(t.in.Pos()), rd.param.Name(), t.param.Name())
+				}
+			}
+		}
+		r.Decide(n == 0, "C36.R4", fname+" source fully read before the destination is truncated", p.Pos(fn.Pos()),
+			fmt.Sprintf("%d source read(s), %d truncating open(s): no read of the source is reachable from a truncating open", len(reads), len(truncs)),
+			fmt.Sprintf("%d read(s) of the source can follow the truncation of the destination", n))
+	}
+	r.Count("functions_reading_and_truncating_path_parameters", nFns)
+}
+
+// c36Involution decides that fn (the obfuscation function applied on both sides) computes each
+// output byte as input byte XOR something that does not depend on the data, i.e. f(f(x)) = x.
+func c36Involution(p *kit.Program, r *kit.Report, fn *ssa.Function) {
+	if fn == nil || fn.Blocks == nil || len(fn.Params) != 1 {
+		return
+	}
+	data := ssa.Value(fn.Params[0])
+	nStores, bad := 0, ""
+	kit.Instrs(fn, func(in ssa.Instruction) {
+		st, ok := in.(*ssa.Store)
+		if !ok {
+			return
+		}
+		ia, ok := st.Addr.(*ssa.IndexAddr)
+		if !ok {
+			return
+		}
+		if b, isB := st.Val.Type().Underlying().(*types.Basic); !isB || b.Kind() != types.Uint8 {
+			return
+		}
+		nStores++
+		x, ok := st.Val.(*ssa.BinOp)
+		if !ok || x.Op != token.XOR {
+			bad = "a byte is stored that is not 'input byte XOR key' (" + p.Pos(st.Pos()) + ")"
+			return
+		}
+		isIn := func(v ssa.Value) bool {
+			u, ok := v.(*ssa.UnOp)
+			if !ok || u.Op != token.MUL {
+				return false
+			}
+			src, ok := u.X.(*ssa.IndexAddr)
+			return ok && src.X == data && src.Index == ia.Index
+		}
+		var other ssa.Value
+		switch {
+		case isIn(x.X):
+			other = x.Y
+		case isIn(x.Y):
+			other = x.X
+		default:
+			bad = "the stored byte is not the input byte at the same index XOR a key (" + p.Pos(st.Pos()) + ")"
+			return
+		}
+		for _, src := range kit.Slice(other, kit.SliceOpts{Prog: p}) {
+			if src.Kind == kit.SrcParam && src.Value == data {
+				bad = "the XOR mask depends on the data itself (" + p.Pos(st.Pos()) + ")"
+			}
+		}
+	})
+	if nStores == 0 {
+		r.Infof("C36.R2", kit.FuncName(fn)+" is an involution", p.Pos(fn.Pos()), "the obfuscation function does not use the byte-wise store idiom; involution not analysed")
+		return
+	}
+	r.Decide(bad == "", "C36.R2", kit.FuncName(fn)+" is an involution", p.Pos(fn.Pos()),
+		"every output byte is the input byte at the same index XOR a data-independent mask, so applying it twice is the identity",
+		bad+": applying the function on write and again on read does not give the configuration back")
 }
